@@ -1345,22 +1345,25 @@ func (w *hdrWorld) facts(d hdrDiv) map[string]interface{} {
 		// Is the best chain at the last completed clean/save/load a prefix of the chain now? (false =
 		// the best chain reorganised since the storage was last written completely)
 		isPrefix := true
+		// HeaderStore.tla: the crash window of F-C12-1 needs a reorganisation that reaches below what a Load keeps
+		// of the stored main branch (its last P blocks): first differing height <= stored tip height - P
+		deep := false
 		for k := d.Step - 1; k >= 0; k-- {
 			pk := w.beh.Ops[k]
 			if pk.Op == "clean" || pk.Op == "save" || pk.Op == "load" {
-				if len(pk.Exp.Chain) > len(op.Exp.Chain) {
+				common := 0
+				for common < len(pk.Exp.Chain) && common < len(op.Exp.Chain) && pk.Exp.Chain[common] == op.Exp.Chain[common] {
+					common++
+				}
+				if common < len(pk.Exp.Chain) {
 					isPrefix = false
-				} else {
-					for i, b := range pk.Exp.Chain {
-						if op.Exp.Chain[i] != b {
-							isPrefix = false
-						}
-					}
+					deep = common <= (len(pk.Exp.Chain)-1)-w.o.P
 				}
 				break
 			}
 		}
 		f["persisted_chain_is_prefix"] = isPrefix
+		f["reorg_below_what_load_keeps_of_the_stored_chain"] = deep
 	}
 	return f
 }
